@@ -1,3 +1,63 @@
-From Thunder Require Import Lib.Json GqlTyping.Types GqlTyping.Parse GqlTyping.Typing GqlTyping.Check14.
-Theorem placeholder : True. Proof. exact I. Qed.
-Print Assumptions placeholder.
+(** C14 – validated queries cannot go wrong; responses match the advertised schema.
+    Statements only; proofs are in GqlTyping/ProofsTyping.v and ProofsExec.v. *)
+From Coq Require Import List ZArith String Bool Arith.
+From Thunder Require Import Lib.Json GqlTyping.Types GqlTyping.Parse GqlTyping.ProofsParse GqlTyping.ProofsExec
+     GqlTyping.Typing GqlTyping.ProofsTyping.
+Import ListNotations.
+Open Scope string_scope.
+Open Scope list_scope.
+
+(** (b) Conformance.  For every schema, every well-typed data value (what Go's types and the builder's
+    non-null enforcement guarantee about resolver results) and every selection: whatever the reference
+    evaluator returns conforms to the advertised type – object fields exactly as selected (same
+    aliases, in order), lists where lists are advertised, scalars of the JSON kind the scalar table
+    gives for the advertised scalar name, enum values among the advertised ones, and null only under
+    a nullable type or as a list entry. *)
+Theorem response_conforms :
+  forall (sch : schema) (tbl : ftable) (fuel : nat) (t : tref) (sel : option (list titem)) (v : value) (j : json),
+    has_type sch false t v -> eval sch tbl fuel t sel v = EOk j -> conforms sch tbl false t sel j.
+Proof. exact (fun sch tbl fuel => proj1 (eval_conforms sch tbl fuel) false). Qed.
+Print Assumptions response_conforms.
+
+(** (c) Completeness of rejection.  Full statement:
+      forall sch root q tn' l', applies sch (q_frags q) root (q_sel q) tn' l' -> bad sch tn' l' ->
+                                forall n, prepare repaired sch root q <> ROk n.
+    [applies] = the parts of the query PrepareQuery walks into (sub-selections of known fields, every
+    fragment under an object type, the fragments on a member under a union); [bad] = an unknown field,
+    a plain field other than __typename on a union, a sub-selection on a scalar or enum, no
+    sub-selection on an object or union.
+    Proved for every variant of the traversal WITHOUT the (type, selection set) memo that C15-fix-4
+    adds (fix21 v = false: the code as it was, and the same validation logic).  Missing for the
+    memoised traversal: that skipping an already-seen pair never hides a failure (needs the
+    topological order certified by Parse); on every run the check compares the two models' verdicts
+    and the memoised model with graphql.PrepareQuery on all generated queries. *)
+Theorem rejection_complete_partial :
+  forall (v : variant) (sch : schema) (root : string) (q : query) (tn' : string) (l' : list titem),
+    fix21 v = false -> applies sch (q_frags q) root (q_sel q) tn' l' -> bad sch tn' l' ->
+    forall n, prepare v sch root q <> ROk n.
+Proof. exact rejection_complete. Qed.
+Print Assumptions rejection_complete_partial.
+
+(** (a) Progress.  Full statement (NOT proved):
+      forall sch root q data fuel, prepare repaired sch root q = ROk n -> has_type sch false (TNamed root) data ->
+                                   eval sch (q_frags q) fuel (TNamed root) (Some (q_sel q)) data <> EShape.
+    Proved here: validation itself cannot go wrong on any query Parse returned, for every schema in
+    which field types and union members are defined (no crash, no unbounded recursion); the
+    execution half is checked by the oracle only (a validated query must execute without error on
+    generated schemas and data). *)
+Theorem validation_cannot_go_wrong_partial :
+  forall (v : variant) (doc : gdoc) (vars : jargs) (q : query) (c : nat) (sch : schema) (root : string),
+    convert v doc vars = ROk (q, c) -> schema_closed sch -> lookup root sch <> None ->
+    is_crash (prepare v sch root q) = false.
+Proof. exact (fun v doc vars q c sch root H => prepare_nocrash v sch root q (convert_certified v doc vars q c H)). Qed.
+Print Assumptions validation_cannot_go_wrong_partial.
+
+(** Non-vacuity. *)
+Example ex_eval :
+  eval ex_sch [] 10 (TNamed "Query") (Some ex_sel) ex_data =
+  EOk (JObj [("n", JNum 3); ("o", JObj [("__typename", JStr "Obj"); ("tags", JArr [JStr "a"; JNull]); ("shade", JStr "DARK")])]).
+Proof. reflexivity. Qed.
+Example ex_rejected :
+  prepare orig ex_sch "Query" {| q_name := ""; q_kind := "query"; q_sel := [TField "o" "obj" [] [] (Some [TField "x" "nope" [] [] None])]; q_frags := [] |}
+  = RErr EPUnknownField.
+Proof. reflexivity. Qed.
